@@ -708,7 +708,7 @@ class Interp:
         spec = self.loop_spec(fr, s)
         n0 = Q.seq_len(seq)
         if spec is None or spec.invariant is None:
-            if not isinstance(n0, int) and not isinstance(seq, LRef):
+            if not isinstance(n0, int) and not isinstance(seq, LRef) and not getattr(self.task, "unroll_symbolic", False):
                 raise Unsupported(f"for loop over a sequence of symbolic length needs an invariant ({ast.unparse(s.iter)})")
             i = 0
             while True:
